@@ -37,23 +37,14 @@ impl RaftIndexInnerManager {
             .await?;
         let meta = file.metadata().await?;
         //log::info!("index file len:{}",meta.len());
-        let (last_applied_log, raft_index) = if meta.len() <= 20 {
+        // layout: 8 bytes last applied log index, then one length-prefixed RaftIndex record.
+        // (The record of a node that has only saved a term and a vote is a few bytes long: the file
+        // must not be taken for uninitialised because it is short.)
+        let (last_applied_log, raft_index) = if meta.len() <= 8 {
             //init write
             let index = RaftIndex::default();
-            /*
-            index.logs.push(LogRange {
-                id: 0,
-                start_index: 1,
-                pre_term: 0,
-                record_count: 0,
-                is_close: false,
-                mark_remove: false,
-            });
-            */
-            let mut buf = Vec::new();
+            let mut buf = id_to_bin(0);
             let mut writer = Writer::new(&mut buf);
-            let header_buf = id_to_bin(0);
-            writer.write_bytes(&header_buf)?;
             writer.write_message(&index)?;
             file.seek(std::io::SeekFrom::Start(0)).await?;
             file.write_all(&buf).await?;
@@ -64,12 +55,25 @@ impl RaftIndexInnerManager {
             //read
             let mut header_buf = vec![0u8; 8];
             file.read_exact(&mut header_buf).await?;
-            let last_applied_log = bin_to_id(&header_buf);
-            let mut file_reader = FileMessageReader::new(file.try_clone().await?, 8);
-            let buf = file_reader.read_next().await?;
-            let mut reader = BytesReader::from_bytes(&buf);
-            let index: RaftIndex = reader.read_message(&buf)?;
-            let raft_index: RaftIndexDto = index.into();
+            // files initialised by older versions start with a length-prefixed zero (first byte 8)
+            // until the first last-applied index is written: that placeholder means 0
+            let last_applied_log = match bin_to_id(&header_buf) {
+                0x0800_0000_0000_0000 => 0,
+                v => v,
+            };
+            let mut len_buf = [0u8; 1];
+            let read_len = file.read(&mut len_buf).await?;
+            let raft_index: RaftIndexDto = if read_len == 0 || len_buf[0] == 0 {
+                // a zero length record is an index that holds nothing but default values
+                RaftIndex::default().into()
+            } else {
+                file.seek(std::io::SeekFrom::Start(8)).await?;
+                let mut file_reader = FileMessageReader::new(file.try_clone().await?, 8);
+                let buf = file_reader.read_next().await?;
+                let mut reader = BytesReader::from_bytes(&buf);
+                let index: RaftIndex = reader.read_message(&buf)?;
+                index.into()
+            };
             (last_applied_log, raft_index)
         };
         Ok(Self {
